@@ -19,7 +19,7 @@ ASSUMPTIONS = ["the theorems are about the SF-core fragment (Interp.v); recipes 
 W = dict(dual_fwd=0.25, fwd=0.5, nick=0.55, ref=0.32, zero_count=0.18, once=0.25, hidden_table=0.12, formula=0.25, randref=0.08)
 
 
-DIRECTED = [S.stream_idle_middle, S.stream_shared_nick_forward, S.stream_once_cluster, S.stream_randref_nicks, S.stream_nick_spelled_like_table]
+DIRECTED = [S.stream_stale_slot, S.stream_idle_middle, S.stream_shared_nick_forward, S.stream_once_cluster, S.stream_randref_nicks, S.stream_nick_spelled_like_table]
 
 
 def gen_case(rng):
@@ -27,7 +27,9 @@ def gen_case(rng):
     if rng.random() < 0.12:      # directed streams (DESIGN.md 11.4)
         r, feats = rng.choice(DIRECTED)(rng)
         k = rng.choice([2, 3, 4, 4])
-        return {"recipe": r, "ks": S.random_cuts(rng, k) if rng.random() < 0.8 else [k], "features": feats}
+        # (a just_once row holding a reference cannot be written to a continuation file: K1/K2 of C04/C05)
+        cut = rng.random() < 0.8 and not row_valued_in_once(r)
+        return {"recipe": r, "ks": S.random_cuts(rng, k) if cut else [k], "features": feats}
     r, feats = S.gen_recipe(rng, W)
     k = rng.choice([1, 2, 2, 3, 4])
     ks = [k]
